@@ -10,134 +10,188 @@ from .c07 import inference_region
 
 
 def r1(ctx):
+    """The vote, decided by abstract evaluation of _choose_dialect on small symbolic peeks."""
+    from ..absint import Interp, Opaque, Unsupported
     f = require_func(ctx, "helpers._choose_dialect")
-    feats = f.params[0]
-    w = [n for n in ast.walk(f.node) if isinstance(n, ast.Assign) and is_name(n.targets[0], "weight")]
-    ok = len(w) == 1 and norm(w[0].value) == "len(feature.attributes)"
-    ctx.ob("R1", ok, "a line's vote is weighted by its number of attributes", func=f, sig="weight := %s" % (norm(w[0].value) if w else None))
-    acc = [n for n in ast.walk(f.node) if isinstance(n, ast.Assign) and norm(n.targets[0]) == "count[k][v]"]
-    ok = len(acc) == 1 and norm(acc[0].value) in ("val + weight", "weight + val")
-    init = [n for n in ast.walk(f.node) if isinstance(n, ast.Assign) and is_name(n.targets[0], "val")]
-    ok = ok and len(init) == 1 and norm(init[0].value) == "count[k].get(v, 0)"
-    ctx.ob("R1", ok, "weights accumulate per (dialect key, value)", func=f, sig="count[k][v] := %s (val := %s)" % (norm(acc[0].value) if acc else None, norm(init[0].value) if init else None))
-    lp = enclosing(acc[0], ast.For) if acc else None
-    ok = lp is not None and norm(lp.iter) == "feature.dialect.items()"
-    outer = enclosing(lp, ast.For) if lp is not None else None
-    ok = ok and outer is not None and is_name(outer.iter, feats)
-    ctx.ob("R1", ok, "every inspected feature votes on every key of its own per-line dialect", func=f, sig="votes over %s of %s" % (norm(lp.iter) if lp is not None else None, norm(outer.iter) if outer is not None else None))
-    # the winner
-    srt = [c for c in calls_in(f.node) if is_name(c.func, "sorted") or is_name(c.func, "max")]
-    ok = False
-    shown = None
-    for c in srt:
-        shown = norm(c)
-        key = kwarg(c, "key")
-        keyok = isinstance(key, ast.Lambda) and norm(key.body) in ("x[1]",) or (key is not None and norm(key) in ("operator.itemgetter(1)", "itemgetter(1)"))
-        if is_name(c.func, "sorted"):
-            rev = kwarg(c, "reverse")
-            if keyok and isinstance(rev, ast.Constant) and rev.value is True and c.args and norm(c.args[0]) == "v.items()":
-                st = None
-                for p in parents(c):
-                    if isinstance(p, ast.Assign):
-                        st = p
-                nm = st.targets[0].id if st is not None and isinstance(st.targets[0], ast.Name) else None
-                pick = [n for n in ast.walk(f.node) if isinstance(n, ast.Assign) and norm(n.targets[0]) == "final_dialect[k]"]
-                ok = bool(pick) and norm(pick[0].value) == "%s[0][0]" % nm
-                shown += " -> " + (norm(pick[0].value) if pick else "?")
-        else:
-            if keyok and c.args and norm(c.args[0]) == "v.items()":
-                pick = [n for n in ast.walk(f.node) if isinstance(n, ast.Assign) and norm(n.targets[0]) == "final_dialect[k]"]
-                ok = bool(pick) and norm(pick[0].value).endswith("[0]")
-    ctx.ob("R1", ok, "the value with the largest total weight wins; a stable descending sort (or max) with no secondary key keeps the value seen first on ties",
-           func=f, sig="winner: %s" % shown)
-    cnt = [n for n in ast.walk(f.node) if isinstance(n, ast.Assign) and is_name(n.targets[0], "count")]
-    ok = bool(cnt) and isinstance(cnt[0].value, ast.DictComp) and norm(cnt[0].value.value) == "{}" and "constants.dialect" in norm(cnt[0].value.generators[0].iter)
-    ctx.ob("R1", ok, "tallies are insertion-ordered dicts (first-seen order is what breaks ties)", func=f, sig="count := %s" % (norm(cnt[0].value) if cnt else None), nontrivial=False)
+    base = ctx.folder.const("constants", "dialect")
+    feats_p = f.params[0]
+
+    def feat(name, attrs, **d):
+        F = Opaque(name, "Feature")
+        dd = dict(base)
+        dd.update(d)
+        F.attrs["dialect"] = dd
+        F.attrs["attributes"] = attrs
+        return F
+
+    def run(feats):
+        try:
+            traces = Interp(ctx).run(f, {feats_p: feats})
+        except Unsupported as e:
+            ctx.require(False, "_choose_dialect outside the analysable subset: %s" % e)
+        outs = []
+        for t in traces:
+            outs.append(t.result[1] if t.result[0] == "return" else ("raise", t.result[1]))
+        return outs
+    one = lambda outs, k: sorted({repr(o.get(k)) if isinstance(o, dict) else repr(o) for o in outs})
+    # weight = number of attributes
+    outs = run([feat("A", {"ID": [1]}, fmt="gff3"), feat("B", {"a": [1], "b": [2], "c": [3]}, fmt="gtf"), feat("C", {"Name": [1]}, fmt="gff3")])
+    ctx.ob("R1", one(outs, "fmt") == ["'gtf'"], "a line's vote is weighted by its number of attributes (one line with three attributes outvotes two lines with one)", func=f,
+           sig="votes gff3:1, gtf:3, gff3:1 -> fmt %s" % one(outs, "fmt"))
+    outs = run([feat("A", {"ID": [1]}, fmt="gff3"), feat("B", {"a": [1]}, fmt="gtf"), feat("C", {"Name": [1]}, fmt="gff3")])
+    ctx.ob("R1", one(outs, "fmt") == ["'gff3'"], "weights accumulate per (dialect key, value)", func=f, sig="votes gff3:1, gtf:1, gff3:1 -> fmt %s" % one(outs, "fmt"))
+    # every key is voted on independently
+    outs = run([feat("A", {"ID": [1], "x": [2]}, fmt="gff3", **{"field separator": "; "}), feat("B", {"a": [1]}, fmt="gff3", **{"field separator": ";"})])
+    ctx.ob("R1", one(outs, "field separator") == ["'; '"] and one(outs, "fmt") == ["'gff3'"], "every inspected feature votes on every key of its own per-line dialect", func=f,
+           sig="field separator votes '; ':2, ';':1 -> %s" % one(outs, "field separator"))
+    # ties: first seen wins, both ways round
+    a = run([feat("A", {"ID": [1], "x": [2]}, fmt="gff3"), feat("B", {"a": [1], "b": [2]}, fmt="gtf")])
+    b = run([feat("B", {"a": [1], "b": [2]}, fmt="gtf"), feat("A", {"ID": [1], "x": [2]}, fmt="gff3")])
+    ctx.ob("R1", one(a, "fmt") == ["'gff3'"] and one(b, "fmt") == ["'gtf'"],
+           "the value with the largest total weight wins; on a tie the value seen first is kept", func=f,
+           sig="tie gff3/gtf -> %s ; tie gtf/gff3 -> %s" % (one(a, "fmt"), one(b, "fmt")))
+    c = run([feat("A", {"ID": [1]}, fmt="gff3"), feat("B", {"a": [1], "b": [2]}, fmt="gtf"), feat("C", {"x": [1]}, fmt="gff3")])
+    ctx.ob("R1", one(c, "fmt") == ["'gff3'"], "a tie is decided on the totals: the value seen first wins even if another value led in between", func=f,
+           sig="votes gff3:1, gtf:2, gff3:1 -> fmt %s" % one(c, "fmt"))
     # order
-    ordl = [n for n in ast.walk(f.node) if isinstance(n, ast.Assign) and norm(n.targets[0]) == "final_dialect['order']"]
-    app = [c for c in calls_in(f.node) if call_attr(c) == "append" and ordl and norm(c.func.value) == norm(ordl[0].value)]
-    ok = len(app) == 1 and any(norm(t).endswith("not in %s" % norm(ordl[0].value)) and pol for t, pol in guards_of(app[0], f.node))
-    lp = enclosing(app[0], ast.For) if app else None
-    ok = ok and lp is not None and norm(lp.iter) == "feature.attributes.keys()" and enclosing(lp, ast.For) is not None and is_name(enclosing(lp, ast.For).iter, feats)
-    ctx.ob("R1", ok, "the key order is rebuilt by appending each attribute key when first seen, feature by feature", func=f,
-           sig="order rebuilt by first-seen append" if ok else "order not rebuilt by first-seen append")
-    if ordl and ok:
-        cfg = cfg_of(f)
-        pick = [n for n in ast.walk(f.node) if isinstance(n, ast.Assign) and norm(n.targets[0]) == "final_dialect[k]"]
-        ok2 = bool(pick) and cfg.node_for(ordl[0]).id in cfg.reachable(cfg.node_for(pick[0]).id)
-        ctx.ob("R1", ok2, "the rebuilt order replaces the voted one", func=f, sig="order assigned after the vote" if ok2 else "voted order overrides the rebuilt one", nontrivial=False)
-    emp = [n for n in ast.walk(f.node) if isinstance(n, ast.If) and norm(n.test) in ("len(%s) == 0" % feats, "not %s" % feats)]
-    ok = bool(emp) and any(isinstance(b, ast.Return) and norm(b.value) == "constants.dialect" for b in emp[0].body)
-    ctx.ob("R1", ok, "with nothing to inspect the default dialect is used", func=f, sig="empty peek -> constants.dialect" if ok else "empty peek not handled", nontrivial=False)
+    outs = run([feat("A", {"ID": [1], "Name": [2]}, fmt="gff3", order=["zz"]), feat("B", {"Parent": [1], "ID": [2]}, fmt="gff3", order=["zz"])])
+    ctx.ob("R1", one(outs, "order") == [repr(["ID", "Name", "Parent"])], "the key order is rebuilt by appending each attribute key when first seen, feature by feature "
+           "(it replaces the voted per-line order)", func=f, sig="order of {ID,Name},{Parent,ID} -> %s" % one(outs, "order"))
+    outs = run([])
+    ok = len(outs) == 1 and isinstance(outs[0], dict) and outs[0] == base
+    ctx.ob("R1", ok, "with nothing to inspect the default dialect is used", func=f, sig="empty peek -> constants.dialect" if ok else "empty peek -> %s" % (outs,), nontrivial=False)
+    outs = run([feat("A", {"ID": [1]}, fmt="gff3")])
+    ok = len(outs) == 1 and isinstance(outs[0], dict) and set(outs[0]) == set(base)
+    ctx.ob("R1", ok, "the chosen dialect has every dialect key", func=f, sig="keys of the result %s" % (sorted(outs[0]) if outs and isinstance(outs[0], dict) else outs), nontrivial=False)
 
 
 def r2_r3(ctx):
-    it = require_func(ctx, "iterators._BaseIterator.__iter__")
-    cfg = cfg_of(it)
-    loops = [n for n in ast.walk(it.node) if isinstance(n, ast.For)]
-    item = loops[0].target.id
-    asg = [n for n in ast.walk(it.node) if isinstance(n, ast.Assign) and norm(n.targets[0]) == "%s.dialect" % item and norm(n.value) == "self.dialect"]
-    ys = [n for n in ast.walk(it.node) if isinstance(n, ast.Yield)]
-    ctx.floor("R2", len(ys), 1, "yields in __iter__")
-    for y in ys:
-        ok = bool(asg) and cfg.dominates(cfg.node_for(asg[0]).id, cfg.node_for(y).id)
-        ctx.ob("R2", ok, "every feature handed out carries the iterator's (chosen) dialect", node=y, func=it,
-               sig="dialect assignment dominates the yield" if ok else "a feature is yielded without the iterator's dialect")
-    # the assignment is before the transform, so the transform sees the file dialect too
-    tc = [c for c in calls_in(it.node) if norm(c.func) == "self.transform"]
-    if tc and asg:
-        ok = cfg.dominates(cfg.node_for(asg[0]).id, cfg.node_for(tc[0]).id)
-        ctx.ob("R2", ok, "the dialect is attached before the transform runs", func=it, sig="dialect before transform" if ok else "transform before dialect", nontrivial=False)
+    """The iterator's constructor and its common iteration path, evaluated abstractly; create_db's hand-over."""
+    from ..absint import Interp, Sym, Opaque, Callback, Unsupported
     init = require_func(ctx, "iterators._BaseIterator.__init__")
-    icfg = cfg_of(init)
-    peeks = [c for c in calls_in(init.node) if call_attr(c) == "peek"]
-    ctx.floor("R3", len(peeks), 1, "peek calls in the iterator constructor")
-    for c in peeks:
-        g = [(norm(t), pol) for t, pol in guards_of(c, init.node)]
-        ok = ("dialect is not None", False) in g and ("force_dialect_check", False) in g
-        ctx.ob("R3", ok, "the input is peeked only when no dialect is supplied (and not under force_dialect_check)", node=c, func=init, sig="peek guards %s" % g)
-    given = [n for n in ast.walk(init.node) if isinstance(n, ast.Assign) and norm(n.targets[0]) == "self.dialect" and norm(n.value) == "dialect"]
-    g = [(norm(t), pol) for t, pol in guards_of(given[0], init.node)] if given else None
-    ok = bool(given) and ("dialect is not None", True) in g
-    ctx.ob("R3", ok, "a supplied dialect is used verbatim", func=init, sig="self.dialect := dialect under %s" % g)
-    ch = [n for n in ast.walk(init.node) if isinstance(n, ast.Assign) and norm(n.targets[0]) == "self.dialect" and "_choose_dialect" in norm(n.value)]
-    ok = len(ch) == 1 and peeks and norm(ch[0].value) == "helpers._choose_dialect(_peek)"
-    ctx.ob("R3", ok, "otherwise the dialect is the vote over the peeked features", func=init, sig="self.dialect := %s" % (norm(ch[0].value) if ch else None))
-    pk = [n for n in ast.walk(init.node) if isinstance(n, ast.Assign) and is_name(n.targets[0], "_peek")]
-    ok = bool(pk) and norm(pk[0].value) == "self.peek(checklines)"
-    ctx.ob("R3", ok, "the peek window is `checklines` items", func=init, sig="_peek := %s" % (norm(pk[0].value) if pk else None), nontrivial=False)
+    itf = require_func(ctx, "iterators._BaseIterator.__iter__")
+    D = {"fmt": "gtf"}
+    pnames = [p for p in init.params if p != "self"]
+    ctx.require({"dialect", "force_dialect_check", "checklines"} <= set(pnames), "iterator constructor lost a parameter: %s" % pnames)
+    for force in (False, True):
+        for dia in (None, D):
+            it = Interp(ctx)
+            it.summaries["helpers._choose_dialect"] = lambda i, pos, kw, node: (i.trace.events.append(("vote", pos[0], node)), Opaque("VOTED", "dialect"))[1]
+            it.summaries["iterators._BaseIterator._custom_iter"] = lambda i, pos, kw, node: Opaque("items", "iter")
+            so = Opaque("self", "obj")
+            try:
+                traces = it.run(init, {pnames[0]: Sym("data", "any", True), "checklines": Sym("n", "int", True), "force_dialect_check": force, "dialect": dia}, self_obj=so)
+            except Unsupported as e:
+                ctx.require(False, "iterator constructor outside the analysable subset: %s" % e)
+            for t in traces:
+                peeks = [e for e in t.events if e[0] == "call-opaque" and e[2] == "peek"]
+                votes = [e for e in t.events if e[0] == "vote"]
+                sets_ = [e[3] for e in t.events if e[0] == "setattr" and e[2] == "dialect" and getattr(e[1], "name", None) == "self"]
+                final = sets_[-1] if sets_ else "unset"
+                label = "force_dialect_check=%s dialect=%s" % (force, "given" if dia else None)
+                if force and dia:
+                    ctx.ob("R3", t.result[0] == "raise", "a supplied dialect together with force_dialect_check is rejected", func=init, sig="%s -> %s" % (label, t.result[0]), nontrivial=False)
+                elif force:
+                    ctx.ob("R3", not peeks and not votes and final is None, "under force_dialect_check nothing is peeked and the dialect stays None (each line is inferred)", func=init,
+                           sig="%s: peeks=%d votes=%d dialect=%r" % (label, len(peeks), len(votes), final), nontrivial=False)
+                elif dia:
+                    ctx.ob("R3", not peeks and not votes, "the input is peeked only when no dialect is supplied", func=init, sig="%s: peeks=%d votes=%d" % (label, len(peeks), len(votes)))
+                    ctx.ob("R3", final is not None and final == D, "a supplied dialect is used verbatim", func=init, sig="%s: self.dialect := %r" % (label, final))
+                else:
+                    okp = len(peeks) == 1 and [getattr(x, "name", x) for x in peeks[0][3]] == ["n"]
+                    ctx.ob("R3", okp, "without a dialect the first `checklines` items are peeked", func=init, sig="%s: peek(%s)" % (label, [getattr(x, "name", x) for x in peeks[0][3]] if peeks else None))
+                    okv = len(votes) == 1 and isinstance(votes[0][1], Opaque) and "peek" in votes[0][1].name and isinstance(final, Opaque) and final.name == "VOTED"
+                    ctx.ob("R3", okv, "otherwise the dialect is the vote over the peeked features", func=init,
+                           sig="%s: self.dialect := %s" % (label, "vote(peek)" if okv else repr(final)))
+    # ---- iteration path
+    n_y = 0
+    for label, tf in (("no transform", None), ("identity transform", "same"), ("transform returning None", "none")):
+        it = Interp(ctx)
+        X = Opaque("X", "Feature")
+        it.summaries["iterators._BaseIterator._custom_iter"] = lambda i, pos, kw, node: [X]
+        so = Opaque("self", "obj")
+        so.attrs["dialect"] = D
+        so.attrs["transform"] = None if tf is None else Callback("transform", X if tf == "same" else None)
+        try:
+            traces = it.run(itf, {}, self_obj=so)
+        except Unsupported as e:
+            ctx.require(False, "iterator __iter__ outside the analysable subset: %s" % e)
+        for t in traces:
+            ys = [e for e in t.events if e[0] == "yield"]
+            cbs = [e for e in t.events if e[0] == "callback"]
+            n_y += len(ys)
+            if tf == "none":
+                ctx.ob("R2", not ys, "a feature the transform rejects is not handed out", func=itf, sig="%s: %d yielded" % (label, len(ys)), nontrivial=False)
+                continue
+            ok = len(ys) == 1 and isinstance(ys[0][1], Opaque) and ys[0][1].attrs.get("dialect") == D
+            ctx.ob("R2", ok, "every feature handed out carries the iterator's (chosen) dialect", func=itf,
+                   sig="%s: yielded feature dialect %r" % (label, ys[0][1].attrs.get("dialect") if ys and isinstance(ys[0][1], Opaque) else None))
+            if tf == "same":
+                okc = len(cbs) == 1 and cbs[0][2] and isinstance(cbs[0][2][0], Opaque) and cbs[0][2][0].attrs.get("dialect") == D
+                ctx.ob("R2", okc, "the dialect is attached before the transform runs", func=itf, sig="transform sees dialect %r" % (cbs[0][2][0].attrs.get("dialect") if cbs and cbs[0][2] else None),
+                       nontrivial=False)
+    ctx.floor("R2", n_y, 2, "yields on the common iteration path")
+    # ---- create_db: which dialect reaches the importer
     cd = require_func(ctx, "create.create_db")
-    rep = [n for n in ast.walk(cd.node) if isinstance(n, ast.Assign) and is_name(n.targets[0], "dialect") and norm(n.value) == "iterator.dialect"]
-    g = [(norm(t), pol) for t, pol in guards_of(rep[0], cd.node)] if rep else None
-    ok = bool(rep) and g == [("dialect is None", True)]
-    ctx.ob("R3", ok, "create_db takes the iterator's dialect only when none was supplied", func=cd, sig="create_db dialect := iterator.dialect under %s" % g)
-    kw = [n for n in ast.walk(cd.node) if isinstance(n, ast.Assign) and norm(n.targets[0]) == "kwargs['dialect']"]
-    ok = bool(kw) and norm(kw[0].value) == "dialect"
-    ctx.ob("R3", ok, "...and hands that dialect to the importer", func=cd, sig="kwargs['dialect'] := %s" % (norm(kw[0].value) if kw else None), nontrivial=False)
+    ITD = {"fmt": "gff3", "_from": "iterator"}
+    for label, given in (("dialect supplied", {"fmt": "gff3", "_from": "caller"}), ("no dialect", None)):
+        it = Interp(ctx)
+
+        def s_di(i, pos, kw, node):
+            o = Opaque("ITER", "obj")
+            o.attrs["dialect"] = ITD
+            o.attrs["directives"] = Opaque("directives", "list")
+            i.trace.events.append(("dataiterator", kw.get("dialect"), node))
+            return o
+        it.summaries["iterators.DataIterator"] = s_di
+        try:
+            traces = it.run(cd, {"data": Sym("data", "str", True), "dbfn": Sym("dbfn", "str", True), "dialect": given})
+        except Unsupported as e:
+            ctx.require(False, "create_db outside the analysable subset: %s" % e)
+        for t in traces:
+            cons = [e for e in t.events if e[0] == "construct" and e[1] in ("create._GFFDBCreator", "create._GTFDBCreator")]
+            if not cons:
+                continue
+            got = cons[0][3].get("dialect")
+            want = given if given is not None else ITD
+            ctx.ob("R3", got == want, "create_db takes the iterator's dialect only when none was supplied, and hands that dialect to the importer", func=cd,
+                   sig="%s: importer dialect from %s" % (label, got.get("_from") if isinstance(got, dict) else got))
+            di = [e for e in t.events if e[0] == "dataiterator"]
+            ctx.ob("R3", bool(di) and di[0][1] == given, "the iterator is built with the caller's dialect (None lets it infer)", func=cd,
+                   sig="%s: DataIterator(dialect=%s)" % (label, "caller's" if di and di[0][1] is not None and di[0][1] == given else di[0][1] if di else "?"), nontrivial=False)
     fi = require_func(ctx, "iterators._FileIterator._custom_iter")
-    fl = [c for c in calls_in(fi.node) if is_name(c.func, "feature_from_line")]
-    ok = bool(fl) and norm(kwarg(fl[0], "dialect") or ast.Constant(value=None)) == "self.dialect"
+    from ..flow import Flow
+    from ..util import closure
+    pool = closure(ctx, fi)
+    fl = Flow(ctx, pool, rows=False)
+    calls_ = [(g, c) for g in pool for c in calls_in(g.node) if (is_name(c.func, "feature_from_line") or call_attr(c) == "feature_from_line")]
+    ok = bool(calls_) and all(kwarg(c, "dialect") is not None and fl.terms(kwarg(c, "dialect"), g) == {("attr", ("self",), "dialect")} for g, c in calls_)
     ctx.ob("R3", ok, "lines are parsed with the iterator's dialect (None while peeking, so each line is inferred)", func=fi,
-           sig="feature_from_line(dialect=%s)" % (norm(kwarg(fl[0], "dialect")) if fl and kwarg(fl[0], "dialect") is not None else None))
+           sig="feature_from_line(dialect=self.dialect)" if ok else "feature_from_line called with another dialect")
 
 
 def r5(ctx):
+    from ..flow import Flow, show
     eff = Effects(ctx)
     target = "parser._split_keyvals"
-    callers = sorted(q for q, cs in eff.callees.items() if any(g.qual == target for g, _ in cs))
     want = ["feature.Feature.__init__", "feature.feature_from_line", "helpers.infer_dialect"]
-    ctx.ob("R5", callers == want, "one inference function sits behind DataIterator, FeatureDB and helpers.infer_dialect", func=ctx.proj.func(target),
-           sig="callers of _split_keyvals: %s" % [c.split(".", 1)[1] for c in callers])
     for q in want:
-        if q in ctx.proj.funcs:
-            ctx.touch(ctx.proj.funcs[q])
+        fq = ctx.proj.maybe_func(q)
+        ctx.require(fq is not None, "anchor vanished: %s" % q)
+        ctx.touch(fq)
+        ok = target in eff.reach(q)
+        ctx.ob("R5", ok, "one inference function sits behind DataIterator, FeatureDB and helpers.infer_dialect (%s reaches it)" % q.split(".", 1)[1], func=fq,
+               sig="%s reaches _split_keyvals" % q.split(".", 1)[1] if ok else "%s no longer reaches _split_keyvals" % q.split(".", 1)[1])
     idf = require_func(ctx, "helpers.infer_dialect")
-    r = [n for n in ast.walk(idf.node) if isinstance(n, ast.Return)]
-    un = [n for n in ast.walk(idf.node) if isinstance(n, ast.Assign) and isinstance(n.targets[0], ast.Tuple)]
-    ok = len(r) == 1 and un and len(un[0].targets[0].elts) == 2 and is_name(r[0].value, un[0].targets[0].elts[1].id) and \
-        isinstance(un[0].value, ast.Call) and not un[0].value.keywords and len(un[0].value.args) == 1
+    fl = Flow(ctx, [idf], rows=False)
+    rets = [n for n in ast.walk(idf.node) if isinstance(n, ast.Return) and n.value is not None]
+    ts = set()
+    for r in rets:
+        ts |= fl.terms(r.value, idf)
+    ok = bool(ts) and all(t[0] == "pos" and t[2] == 1 and t[1][0] == "call" and t[1][1].endswith("_split_keyvals") and len(t[1][3]) == 1 and
+                          t[1][3][0] == ("param", idf.qual, idf.params[0]) for t in ts)
     ctx.ob("R5", ok, "helpers.infer_dialect returns the dialect half of the parser's result, inferring (no dialect passed)", func=idf,
-           sig="infer_dialect returns %s of %s" % (norm(r[0].value) if r else None, norm(un[0].value) if un else None))
+           sig="infer_dialect returns %s" % ", ".join(sorted(show(t) for t in ts)))
     infer_writers = []
     for f in ctx.proj.funcs.values():
         if f.qual.startswith(target) or f.module.name in ("parser",):
@@ -169,61 +223,67 @@ def regex_shape(pat):
 
 
 def r6(ctx):
-    sk = require_func(ctx, "parser._split_keyvals")
-    inf, _prov = inference_region(sk)
-    pat = None
+    """What inference records for a line: decided by the template round trip (c07.r_roundtrip, inferred mode: fmt, both
+    separators, quoting, trailing semicolon, repeated keys and key order must be those the template was written in) and by
+    a provenance rule: the dictionary the parser writes to is never the shared default itself."""
+    from .c07 import r_roundtrip
+    r_roundtrip(ctx, rule="R6")
+    # the gff3 key test: the pattern(s) the parser consults behave like 'one or more word characters followed by ='
+    # on a corpus that separates the neighbouring patterns (empty key, blank before '=', non-word characters)
+    import re as _re
+    sk0 = require_func(ctx, "parser._split_keyvals")
+    from ..util import closure as _closure
+    used = set()
+    for g in _closure(ctx, sk0):
+        for x in ast.walk(g.node):
+            if isinstance(x, ast.Name) and isinstance(x.ctx, ast.Load):
+                used.add(x.id)
     pm = ctx.proj.module("parser")
-    for n in pm.tree.body:
-        if isinstance(n, ast.Assign) and isinstance(n.value, ast.Call) and norm(n.value.func) == "re.compile" and n.value.args:
-            if is_name(n.targets[0], "gff3_kw_pat"):
-                pat = const_str(n.value.args[0])
-    ctx.require(pat is not None, "anchor vanished: parser.gff3_kw_pat")
-    shape = regex_shape(pat)
-    ok = len(shape) == 2 and shape[0][0] == "repeat" and shape[0][1] == 1 and shape[0][2] == "inf" and "CATEGORY_WORD" in shape[0][3] and shape[1] == ("lit", "=")
-    ctx.ob("R6", ok, "the gff3 test is 'one or more word characters followed by ='", node=pm.toplevel.get("gff3_kw_pat"), sig="gff3 key pattern %r -> %s" % (pat, shape))
-    tests = [n for st in inf for n in ast.walk(st) if isinstance(n, ast.If) and "gff3_kw_pat" in norm(n.test)]
-    ctx.floor("R6", len(tests), 1, "format tests on the key pattern")
-    t = tests[0]
-    ok = isinstance(t.test, ast.Call) and call_attr(t.test) == "match" and norm(t.test.args[0]) == "parts[0]"
-    ctx.ob("R6", ok, "the pattern is matched at the start of the first field", node=t, func=sk, sig="format test %s" % norm(t.test))
-
-    def sets(body):
-        out = {}
-        for st in body:
-            for n in ast.walk(st):
-                if isinstance(n, ast.Assign) and isinstance(n.targets[0], ast.Subscript) and norm(n.targets[0].value) == "dialect" and const_str(n.targets[0].slice):
-                    out[const_str(n.targets[0].slice)] = ctx.folder.try_fold(n.value, "parser", default=norm(n.value))
-        return out
-    a, b = sets(t.body), sets(t.orelse)
-    ok = a.get("fmt") == "gff3" and a.get("keyval separator") == "=" and "fmt" not in b and b.get("keyval separator") == " "
-    ctx.ob("R6", ok, "fmt becomes gff3 (and the separator '=') exactly on the matching branch; otherwise the separator is a blank", node=t, func=sk,
-           sig="match -> %s ; no match -> %s" % (sorted(a.items()), sorted((k, v) for k, v in b.items() if k != "leading semicolon")))
-    gtf = [n for st in inf for n in ast.walk(st) if isinstance(n, ast.Assign) and norm(n.targets[0]) == "dialect['fmt']" and const_str(n.value) == "gtf"]
-    ctx.floor("R6", len(gtf), 1, "assignments of fmt = gtf")
-    for n in gtf:
-        g = [(norm(tt), pol) for tt, pol in guards_of(n, sk.node)]
-        ok = len(g) == 1 and g[0][1] and set(g[0][0].replace("(", "").replace(")", "").split(" and ")) == {"dialect['keyval separator'] == ' '", "dialect['quoted GFF2 values']"}
-        ctx.ob("R6", ok, "fmt becomes gtf exactly when the separator is a blank and values are quoted", node=n, func=sk, sig="fmt=gtf under %s" % g)
-    allfmt = [n for st in inf for n in ast.walk(st) if isinstance(n, ast.Assign) and norm(n.targets[0]) == "dialect['fmt']"]
-    ctx.ob("R6", len(allfmt) == 2, "fmt is decided at exactly these two places", func=sk, sig="%d assignments of fmt on the inference path" % len(allfmt), nontrivial=False)
-    ts = [n for st in inf for n in ast.walk(st) if isinstance(n, ast.Assign) and norm(n.targets[0]) == "dialect['trailing semicolon']"]
-    ok = len(ts) == 1 and [(norm(tt), pol) for tt, pol in guards_of(ts[0], sk.node)] == [("keyval_str[-1] == ';'", True)] and norm(ts[0].value) == "True"
-    ctx.ob("R6", ok, "'trailing semicolon' is recorded exactly when the last character is ';'", func=sk, sig="trailing semicolon under %s" % ([(norm(tt), pol) for tt, pol in guards_of(ts[0], sk.node)] if ts else None))
-    rk = [n for st in inf for n in ast.walk(st) if isinstance(n, ast.Assign) and norm(n.targets[0]) == "dialect['repeated keys']"]
-    ok = len(rk) == 1 and [(norm(tt), pol) for tt, pol in guards_of(rk[0], sk.node)] == [("key in quals", True)] and norm(rk[0].value) == "True"
-    ctx.ob("R6", ok, "'repeated keys' is recorded exactly when a key is seen again", func=sk, sig="repeated keys under %s" % ([(norm(tt), pol) for tt, pol in guards_of(rk[0], sk.node)] if rk else None))
-    qv = [n for st in inf for n in ast.walk(st) if isinstance(n, ast.Assign) and norm(n.targets[0]) == "dialect['quoted GFF2 values']"]
-    g = [(norm(tt), pol) for tt, pol in guards_of(qv[0], sk.node)] if qv else None
-    ok = len(qv) == 1 and g is not None and len(g) == 1 and g[0][1] and "val[0] == '\"'" in g[0][0] and "val[-1] == '\"'" in g[0][0]
-    ctx.ob("R6", ok, "quoting is recorded exactly when a value is wrapped in double quotes", func=sk, sig="quoted values under %s" % g)
-    od = [c for st in inf for c in ast.walk(st) if isinstance(c, ast.Call) and call_attr(c) == "append" and norm(c.func.value) == "dialect['order']"]
-    ok = len(od) == 1 and norm(od[0].args[0]) == "key" and not [x for x in guards_of(od[0], enclosing(od[0], ast.For))]
-    reset = [n for st in inf for n in ast.walk(st) if isinstance(n, ast.Assign) and norm(n.targets[0]) == "dialect['order']" and norm(n.value) == "[]"]
-    ctx.ob("R6", ok and bool(reset), "the per-line key order is the order of appearance (reset, then appended unconditionally)", func=sk,
-           sig="order: reset=%s append=%s" % (bool(reset), norm(od[0]) if od else None))
-    cp = [n for n in ast.walk(sk.node) if isinstance(n, ast.Assign) and is_name(n.targets[0], "dialect") and "constants.dialect" in norm(n.value)]
-    ok = bool(cp) and norm(cp[0].value) in ("copy.copy(constants.dialect)", "copy.deepcopy(constants.dialect)", "dict(constants.dialect)")
-    ctx.ob("R6", ok, "inference starts from a copy of the default dialect (never mutates the shared default)", func=sk, sig="inference base %s" % (norm(cp[0].value) if cp else None))
+    pats = {}
+    for n_ in pm.tree.body:
+        if isinstance(n_, ast.Assign) and isinstance(n_.value, ast.Call) and norm(n_.value.func) in ("re.compile", "compile") and n_.value.args and \
+                isinstance(n_.targets[0], ast.Name) and n_.targets[0].id in used and const_str(n_.value.args[0]) is not None:
+            pats[n_.targets[0].id] = const_str(n_.value.args[0])
+    ctx.floor("R6", len(pats), 1, "compiled patterns consulted by the attribute parser")
+    corpus = ["a=", "=", "a", " a=", "a =", "ab=c", "_=", "1=", "-=", "a-b=", "", "a==", "ID=x;Parent=y", "gene_id \"x\"", "=x", "a.b=c", "ä=1", "a\t=1", "a=b=c"]
+    ref = _re.compile(r"\w+=")
+    for name_, pat_ in sorted(pats.items()):
+        try:
+            cp = _re.compile(pat_)
+        except _re.error as e:
+            ctx.ob("R6", False, "the key pattern compiles", node=pm.toplevel.get(name_), sig="pattern %r: %s" % (pat_, e))
+            continue
+        diff = [s_ for s_ in corpus if (cp.match(s_) is None) != (ref.match(s_) is None)]
+        ctx.ob("R6", not diff, "the gff3 test is 'one or more word characters followed by =' at the start of the first field", node=pm.toplevel.get(name_),
+               sig="key pattern %r agrees with \\w+= on the separating corpus" % pat_ if not diff else "key pattern %r differs from \\w+= on %r" % (pat_, diff[:3]))
+    from ..flow import Flow
+    from ..util import closure
+    sk = require_func(ctx, "parser._split_keyvals")
+    pool = closure(ctx, sk)
+    fl = Flow(ctx, pool, rows=False)
+    SHARED = ("global", "constants.dialect")
+    bad = []
+    n = 0
+    for g in pool:
+        for x in ast.walk(g.node):
+            tgt = None
+            if isinstance(x, ast.Assign):
+                for t in x.targets:
+                    if isinstance(t, ast.Subscript):
+                        tgt = t.value
+            elif isinstance(x, ast.Call) and isinstance(x.func, ast.Attribute) and x.func.attr in ("update", "setdefault", "pop", "clear", "append", "extend"):
+                tgt = x.func.value
+                if isinstance(tgt, ast.Subscript):
+                    tgt = tgt.value
+            if tgt is None:
+                continue
+            ts = fl.terms(tgt, g)
+            if any(t == SHARED or (t[0] == "item" and t[1] == SHARED) for t in ts):
+                bad.append(x)
+            n += 1
+    ctx.ob("R6", not bad, "inference starts from a copy of the default dialect (never mutates the shared default)", func=sk, node=(bad[0] if bad else None),
+           sig="the parser writes only to its own copy of the dialect" if not bad else "the parser writes into constants.dialect itself (line %d)" % bad[0].lineno)
+    ctx.floor("R6", n, 3, "stores into dictionaries in the attribute parser")
 
 
 def check(ctx):
